@@ -3,9 +3,11 @@
     Every theorem holds for EVERY normalisation function [unitv] (the model of [v / sqrt(v.v)]); where a
     theorem needs the normalisation to behave at a particular vector it says so ([unit_ok]).
     Model: Wrapper/Model.v; vocabulary: Wrapper/Spec.v. *)
-From Coq Require Import List Bool Arith ZArith QArith Qabs Lia.
-From DV Require Import Common.Res Orient.Model Wrapper.Model Wrapper.Spec Wrapper.Corr
-     Wrapper.ProofsC03 Wrapper.ProofsUnit.
+From Coq Require Import List Bool Arith ZArith NArith QArith Qabs Lia.
+From DV Require Import Common.Res Common.Str Common.Jv Ext.Types Ext.Model Ext.Spec Ext.LookupSpec Ext.ValidFacts
+     Ext.ProofsMergeFrame Ext.ProofsMerge
+     Orient.Model Wrapper.Model Wrapper.Spec Wrapper.Corr
+     Wrapper.ProofsC03 Wrapper.ProofsUnit Wrapper.ProofsLookupW.
 Import ListNotations.
 Local Open Scope nat_scope.
 
@@ -79,6 +81,34 @@ Theorem C03img_step_test :
      near_zero td = false /\ (Qabs (dot (unitv td) (unitv (col3 A dim)) - 1) <= 11 # 1000000)%Q).
 Proof. exact step_test_reading. Qed.
 
+(** WRAPPER level (image half composed with C03_merge_den and C08_value): a lookup ([get_meta], default None) on the
+    merged wrapper at a voxel whose merge-axis coordinate is [i] returns what input [i] contributes at the remaining
+    coordinates ([den_in]: the input's own value, without its per-slice classes when its slice normal differs from
+    the result's); when the slice normals agree that is input [i]'s own lookup at the remaining coordinates.
+    Domain: at least two inputs, each extension valid and recording its image's shape / slice dim / affine, all
+    images of one shape and header slice dim; merge along the slice, time or vector axis; no trailing singleton dim
+    in the result (open finding N4).  Nothing is assumed about [unitv]. *)
+Theorem C03w_lookup :
+  forall (V : Type) (veqb : V -> V -> bool) (vnone : V), (forall a b, reflect (a = b) (veqb a b)) ->
+  forall (unitv : vec -> vec) (ws : list (wrapper V)) (odim : option nat) (r : img) (e : ext V)
+         (im0 : img) (e0 : ext V) (rest : list (wrapper V)),
+    ws = (im0, e0) :: rest -> 2 <= length ws ->
+    (forall w, In w ws -> consistent w /\ valid (snd w) /\ ishape (fst w) = ishape im0 /\ islice (fst w) = islice im0) ->
+    from_sequence_w veqb vnone unitv ws odim = Ok (r, e) ->
+    trailing1b (ishape r) = false ->
+    exists dim, resolve_merge_dim (ishape im0) odim = Ok dim /\ consistent (r, e) /\
+      forall ax, ProofsMergeFrame.axis_of (islice im0) dim = Some ax -> (3 <= dim -> islice im0 <> None) ->
+        valid e /\
+        forall k ix, LookupSpec.in_bounds ix (ishape r) ->
+          let w := nth (Z.to_nat (nth dim ix 0%Z)) ws (im0, e0) in
+          let ixi := merge_src_z (ishape im0) dim ix in
+          Z.to_nat (nth dim ix 0%Z) < length ws /\ LookupSpec.in_bounds ixi (ishape (fst w)) /\
+          get_meta (ext_img_of r) e k (Some ix) vnone =
+            Ok (den_in vnone (hdr_of e) (snd w) k (pos_of (ext_img_of (fst w)) ixi)) /\
+          (use_slices (hdr_of e) (hdr_of (snd w)) = true ->
+           get_meta (ext_img_of r) e k (Some ix) vnone = get_meta (ext_img_of (fst w)) (snd w) k (Some ixi) vnone).
+Proof. exact @from_sequence_w_lookup. Qed.
+
 (* ------------------------------------------------------------------------------------------ non-vacuity *)
 
 (** an oblique affine with a NON-symmetric 3x3 part: columns (3,4,0)/2, (-4,3,0), (0,0,5)/2 *)
@@ -98,39 +128,57 @@ Proof.
   split; [apply ProofsArr.list_nat_eqb_eq, H1|]. split; [apply Nat.eqb_eq, H2 | exact H3].
 Qed.
 
+(** every hypothesis of [C03img_data] instantiated (three oblique (1,2,2) images along dim 0), and its conclusion *)
 Example C03img_data_nonvacuous :
-  exists r, uniform ex_ims [1; 2; 2] /\ from_sequence_img unit_exact ex_ims (Some 0) = Ok r /\
-            ishape r = [3; 2; 2] /\ idata r = [1; 2; 3; 4; 11; 12; 13; 14; 21; 22; 23; 24]%Z.
-Proof. eexists. split; [apply ex_uniform; reflexivity|]. split; vm_compute; reflexivity || split; reflexivity. Qed.
+  exists r, ex_ims = ex0 :: [ex1; ex2] /\ uniform ex_ims (ishape ex0) /\
+            from_sequence_img unit_exact ex_ims (Some 0) = Ok r /\
+            resolve_merge_dim (ishape ex0) (Some 0) = Ok 0 /\
+            ishape r = [3; 2; 2] /\ idata r = [1; 2; 3; 4; 11; 12; 13; 14; 21; 22; 23; 24]%Z /\
+            aget (iarr r) [2; 1; 0] = aget (iarr ex2) (merge_src (ishape ex0) 0 [2; 1; 0]).
+Proof.
+  eexists. split; [reflexivity|]. split; [apply ex_uniform; reflexivity|]. split; [vm_compute; reflexivity|].
+  repeat split.
+Qed.
 
 Example C03img_affine_nonvacuous :
-  exists r, from_sequence_img unit_exact ex_ims (Some 0) = Ok r /\
-            col3 (iaff r) 0 = [3 # 2; 2; 0]%Q.
-Proof. eexists. split; vm_compute; reflexivity. Qed.
+  exists r, ex_ims = ex0 :: [ex1; ex2] /\ is_shape 4 4 (iaff ex0) = true /\
+            resolve_merge_dim (ishape ex0) (Some 0) = Ok 0 /\
+            from_sequence_img unit_exact ex_ims (Some 0) = Ok r /\
+            col3 (iaff r) 0 = [3 # 2; 2; 0]%Q /\ mentry (iaff r) 1 1 = mentry (iaff ex0) 1 1.
+Proof. eexists. split; [reflexivity|]. split; [reflexivity|]. split; [reflexivity|]. split; [vm_compute; reflexivity|]. split; reflexivity. Qed.
 
 (** a 5-D merge: (2,1,1,1,2) inputs along dim 3, header slice dims 2 and 1: the merged header has none *)
 Example C03img_slice_nonvacuous :
-  exists r, from_sequence_img unit_exact
-              [mk_img [2; 1; 1; 1; 2] [1; 2; 3; 4]%Z (exA 0 0 0) (Some 2);
-               mk_img [2; 1; 1; 1; 2] [5; 6; 7; 8]%Z (exA 0 0 0) (Some 1)] (Some 3) = Ok r /\
+  let ims := [mk_img [2; 1; 1; 1; 2] [1; 2; 3; 4]%Z (exA 0 0 0) (Some 2);
+              mk_img [2; 1; 1; 1; 2] [5; 6; 7; 8]%Z (exA 0 0 0) (Some 1)] in
+  exists r, from_sequence_img unit_exact ims (Some 3) = Ok r /\
             ishape r = [2; 1; 1; 2; 2] /\ idata r = [1; 2; 5; 6; 3; 4; 7; 8]%Z /\ islice r = None.
-Proof. eexists. split; [vm_compute; reflexivity|]. repeat split. Qed.
+Proof. cbv zeta. eexists. split; [vm_compute; reflexivity|]. repeat split. Qed.
 
-(** the same images in the order (0,2,1): the second step points backwards *)
+(** the same images in the order (0,2,1): the second step points backwards; every hypothesis of [C03img_refuse] *)
 Example C03img_refuse_nonvacuous :
-  uniform [ex0; ex2; ex1] [1; 2; 2] /\ from_sequence_img unit_exact [ex0; ex2; ex1] (Some 0) = Err EValue.
-Proof. split; [apply ex_uniform; reflexivity | vm_compute; reflexivity]. Qed.
+  [ex0; ex2; ex1] = ex0 :: [ex2; ex1] /\ uniform [ex0; ex2; ex1] (ishape ex0) /\
+  resolve_merge_dim (ishape ex0) (Some 0) = Ok 0 /\
+  from_sequence_img unit_exact [ex0; ex2; ex1] (Some 0) = Err EValue.
+Proof. split; [reflexivity|]. split; [apply ex_uniform; reflexivity|]. split; [reflexivity | vm_compute; reflexivity]. Qed.
 
 Example C03img_refuse_exists_nonvacuous :
   exists i, S i < length [ex0; ex2; ex1] /\
             bad_step unit_exact 0 (iaff (nth i [ex0; ex2; ex1] ex0)) (iaff (nth (S i) [ex0; ex2; ex1] ex0)) = true.
 Proof. exists 1. split; [cbn; lia | vm_compute; reflexivity]. Qed.
 
-(** [unit_exact] is one of the functions the theorems quantify over, with [unit_ok] at the vectors of the example *)
+(** every hypothesis of [C03img_never_crashes], the left side of its equivalence (a result exists) and the right
+    side ([mergeable]); [unit_exact] is one of the functions the theorems quantify over, with [unit_ok] at the
+    vectors this run normalises *)
 Example C03img_never_crashes_nonvacuous :
+  ex_ims = ex0 :: [ex1; ex2] /\ uniform ex_ims (ishape ex0) /\ resolve_merge_dim (ishape ex0) (Some 0) = Ok 0 /\
+  2 <= length ex_ims /\
+  (exists r, from_sequence_img unit_exact ex_ims (Some 0) = Ok r) /\
   mergeable unit_exact 0 ex_ims ex0 /\ unit_ok unit_exact (col3 (exA 10 (-8) 3) 0) /\
   unit_ok unit_exact (vsub [23 # 2; -6 # 1; 3]%Q [10; -8 # 1; 3]%Q).
 Proof.
+  split; [reflexivity|]. split; [apply ex_uniform; reflexivity|]. split; [reflexivity|]. split; [cbn; lia|].
+  split; [eexists; vm_compute; reflexivity|].
   split; [|split; apply unit_exact_ok; vm_compute; reflexivity].
   split.
   - intros i Hi. cbn [length ex_ims] in Hi. destruct i as [|[|[|i]]]; try lia; vm_compute; reflexivity.
@@ -143,7 +191,37 @@ Example C03img_dim_argument_nonvacuous :
   resolve_merge_dim [2; 2; 2] (Some 5) = Err EValue.
 Proof. repeat split. Qed.
 
+(** the hypothesis of [C03img_step_test] ([unit_ok] at the step) and both outcomes *)
 Example C03img_step_test_nonvacuous :
+  unit_ok unit_exact (vsub (trans_of (exA (23 # 2) (-6) 3)) (trans_of (exA 10 (-8) 3))) /\
   bad_step unit_exact 0 (exA 10 (-8) 3) (exA (23 # 2) (-6) 3) = false /\
   bad_step unit_exact 0 (exA (23 # 2) (-6) 3) (exA 10 (-8) 3) = true.
-Proof. split; vm_compute; reflexivity. Qed.
+Proof. split; [apply unit_exact_ok; vm_compute; reflexivity|]. split; vm_compute; reflexivity. Qed.
+
+(** [C03w_lookup]: two 4-D wrappers (shape (2,2,2,2), slice axis 2, one per-time-sample key and one per-slice key)
+    merged along the vector axis; every hypothesis, and the lookup at a voxel of vector position 1 = input 1's lookup *)
+Definition exw_aff : mat := [[1; 0; 0; 0]; [0; 1; 0; 0]; [0; 0; 1; 0]; [0; 0; 0; 1]]%Q.
+Definition exw_in (v : Z) : wrapper jv :=
+  (mk_img [2; 2; 2; 2] (map (fun i => (Z.of_nat i + 100 * v)%Z) (seq 0 16)) exw_aff (Some 2),
+   mk_ext (mk_hdr [2; 2; 2; 2] (Some 2) exw_aff true false)
+          [([116]%N, (TSamples, [JInt v; JInt (v + 1)])); ([115]%N, (TSlices, [JInt 7; JInt (v + 2)]))]).
+
+Example C03w_lookup_nonvacuous :
+  let ws := [exw_in 10; exw_in 20] in
+  2 <= length ws /\
+  (forall w, In w ws -> consistent w /\ valid (snd w) /\ ishape (fst w) = ishape (fst (exw_in 10)) /\
+                        islice (fst w) = islice (fst (exw_in 10))) /\
+  exists r e, from_sequence_w jv_eqb JNull unit_exact ws (Some 4) = Ok (r, e) /\
+    trailing1b (ishape r) = false /\ ProofsMergeFrame.axis_of (islice (fst (exw_in 10))) 4 = Some AxV /\
+    LookupSpec.in_bounds [1; 0; 1; 1; 1]%Z (ishape r) /\ use_slices (hdr_of e) (hdr_of (snd (exw_in 20))) = true /\
+    merge_src_z [2; 2; 2; 2] 4 [1; 0; 1; 1; 1]%Z = [1; 0; 1; 1]%Z /\
+    get_meta (ext_img_of r) e [116]%N (Some [1; 0; 1; 1; 1]%Z) JNull = Ok (JInt 21) /\
+    get_meta (ext_img_of (fst (exw_in 20))) (snd (exw_in 20)) [116]%N (Some [1; 0; 1; 1]%Z) JNull = Ok (JInt 21) /\
+    get_meta (ext_img_of r) e [115]%N (Some [1; 0; 1; 1; 1]%Z) JNull = Ok (JInt 22).
+Proof.
+  cbv zeta. split; [cbn; lia|]. split.
+  - intros w [<-|[<-|[]]]; (split; [repeat split|]); (split; [apply validb_valid; vm_compute; reflexivity|]); split; reflexivity.
+  - eexists. eexists. split; [vm_compute; reflexivity|]. split; [reflexivity|]. split; [reflexivity|].
+    split; [split; [reflexivity|]; intros j Hj; cbn in Hj; destruct j as [|[|[|[|[|j]]]]]; cbn; lia|].
+    split; [vm_compute; reflexivity|]. split; [reflexivity|]. split; [vm_compute; reflexivity|]. split; vm_compute; reflexivity.
+Qed.
